@@ -45,38 +45,43 @@ Fixpoint lstrip_fuel (fuel : nat) (s : bytes) : bytes :=
   end.
 Definition lstrip (s : bytes) : bytes := lstrip_fuel (length s) s.
 
-(* len() of the str whose surrogateescape encoding is s: one per well-formed UTF-8 sequence,
-   one per byte that is not part of one *)
+(* Width in bytes of the first character of the str whose surrogateescape encoding is s: a
+   well-formed UTF-8 sequence is one character, any other byte is one (escaped) character. *)
 Definition cont (b : byte) : bool := (128 <=? bN b)%N && (bN b <=? 191)%N.
 Definition rng (lo hi : N) (b : byte) : bool := (lo <=? bN b)%N && (bN b <=? hi)%N.
+Definition char_width (s : bytes) : nat :=
+  match s with
+  | [] => 0
+  | a :: s1 =>
+      if (bN a <? 194)%N then 1 else
+      match s1 with
+      | b :: s2 =>
+          if rng 194 223 a && cont b then 2
+          else match s2 with
+               | c :: s3 =>
+                   if ((byte_eqb a xe0 && rng 160 191 b) || ((rng 225 236 a || rng 238 239 a) && cont b)
+                       || (byte_eqb a xed && rng 128 159 b)) && cont c
+                   then 3
+                   else match s3 with
+                        | d :: _ =>
+                            if ((byte_eqb a xf0 && rng 144 191 b) || (rng 241 243 a && cont b)
+                                || (byte_eqb a xf4 && rng 128 143 b)) && cont c && cont d
+                            then 4 else 1
+                        | [] => 1
+                        end
+               | [] => 1
+               end
+      | [] => 1
+      end
+  end.
+(* s[1:] of the str: the offset arithmetic off + 1 *)
+Definition tl_char (s : bytes) : bytes := skipn (char_width s) s.
+
+(* len() of the str *)
 Fixpoint ulen_fuel (fuel : nat) (s : bytes) : N :=
   match fuel with
   | O => 0
-  | S f =>
-      match s with
-      | [] => 0
-      | a :: s1 =>
-          let one := (1 + ulen_fuel f s1)%N in
-          match s1 with
-          | b :: s2 =>
-              if rng 194 223 a && cont b then (1 + ulen_fuel f s2)%N
-              else match s2 with
-                   | c :: s3 =>
-                       if ((byte_eqb a xe0 && rng 160 191 b) || ((rng 225 236 a || rng 238 239 a) && cont b)
-                           || (byte_eqb a xed && rng 128 159 b)) && cont c
-                       then (1 + ulen_fuel f s3)%N
-                       else match s3 with
-                            | d :: s4 =>
-                                if ((byte_eqb a xf0 && rng 144 191 b) || (rng 241 243 a && cont b)
-                                    || (byte_eqb a xf4 && rng 128 143 b)) && cont c && cont d
-                                then (1 + ulen_fuel f s4)%N else one
-                            | [] => one
-                            end
-                   | [] => one
-                   end
-          | [] => one
-          end
-      end
+  | S f => match s with [] => 0 | _ => (1 + ulen_fuel f (tl_char s))%N end
   end.
 Definition ulen (s : bytes) : N := ulen_fuel (length s) s.
 
@@ -115,7 +120,7 @@ Fixpoint read_cookie_pairs (fuel : nat) (r : bytes) : res pairs :=
                        | [] => ([], r1)
                        end in
       let here := if nonempty rhs || nonempty lhs then [(lhs, rhs)] else [] in
-      match tl r2 with
+      match tl_char r2 with
       | [] => Ok here
       | r3 => match read_cookie_pairs f r3 with
               | Ok l => Ok (here ++ l)
@@ -148,7 +153,7 @@ Fixpoint read_set_cookie_pairs (fuel : nat) (r : bytes) (cur : opairs) (any_cook
             if byte_eqb c EQS then
               let (rhs, ra) := read_value r1' [SEMI; COMMA] in
               if bytes_eqb (lower lhs) EXPIRES && (ulen rhs <=? 3)%N then
-                let (trail, rb) := read_value (tl ra) [SEMI; COMMA] in
+                let (trail, rb) := read_value (tl_char ra) [SEMI; COMMA] in
                 (cur ++ [(lhs, Some (rhs ++ [COMMA] ++ trail))], rb)
               else (cur ++ [(lhs, Some rhs)], ra)
             else no_eq
@@ -158,7 +163,7 @@ Fixpoint read_set_cookie_pairs (fuel : nat) (r : bytes) (cur : opairs) (any_cook
       let done := if comma then [cur1] else [] in
       let cur2 := if comma then [] else cur1 in
       let any2 := any_cookie || comma in
-      match tl r2 with
+      match tl_char r2 with
       | [] => Ok (done ++ (if nonempty_l cur2 || negb any2 then [cur2] else []))
       | r3 => match read_set_cookie_pairs f r3 cur2 any2 with
               | Ok l => Ok (done ++ l)
